@@ -214,7 +214,17 @@ def gen_sprite(rng: random.Random, *, max_canvas=10, max_layers=6, max_frames=4,
             else:
                 c["kind"] = rng.choice(["zlib", "zlib", "raw"])
                 c["w"], c["h"] = rng.randint(1, 8), rng.randint(1, 8)
-                if r < 0.5:
+                if rng.random() < 0.04:
+                    # one dimension beyond 255 (a strip of 256 / 257 / 300 pixels), placed so that its far end lies on the canvas
+                    big = rng.choice([256, 257, 300])
+                    if rng.random() < 0.5:
+                        c["w"], c["h"] = big, rng.randint(1, 2)
+                    else:
+                        c["w"], c["h"] = rng.randint(1, 2), big
+                if c["w"] > 8 or c["h"] > 8:
+                    c["x"] = rng.choice([0, W - 1, -(c["w"] - 2), -(c["w"] - W)]) if c["w"] > 8 else rng.randint(0, W - 1)
+                    c["y"] = rng.choice([0, H - 1, -(c["h"] - 2), -(c["h"] - H)]) if c["h"] > 8 else rng.randint(0, H - 1)
+                elif r < 0.5:
                     c["x"], c["y"] = rng.randint(0, W - 1), rng.randint(0, H - 1)
                 elif r < 0.8:
                     c["x"], c["y"] = rng.randint(-c["w"], W), rng.randint(-c["h"], H)
